@@ -301,6 +301,10 @@ func (r *DeviceLocal) CleanRemoteEntityCaches(remoteAddress *model.EntityAddress
 }
 
 func (r *DeviceLocal) ProcessCmd(datagram model.DatagramType, remoteDevice api.DeviceRemoteInterface) error {
+	if datagram.Header.AddressSource == nil || datagram.Header.AddressDestination == nil {
+		return errors.New("the datagram header lacks the source or destination address")
+	}
+
 	destAddr := datagram.Header.AddressDestination
 	localFeature := r.FeatureByAddress(destAddr)
 
